@@ -174,7 +174,7 @@ def _inv_leap_loop(sign, accname="duration_wrt_ref"):
         s0, e0 = Z(it0.fields[0].e), Z(it0.fields[1].e)
         s, e = Z(it.fields[0].e), Z(it.fields[1].e)
         d0, d = entry[accname], cur[accname]
-        return z3.And(e == e0, s >= s0, s <= e0, s >= -YMAX - 1, s <= YMAX + 1, is_canon(d),
+        return z3.And(e == e0, s >= s0, z3.Or(s <= e0, s == s0), s >= -YMAX - 1, s <= YMAX + 1, is_canon(d),
                       Lf(s) - Lf(s0) >= 0, Lf(s) - Lf(s0) <= s - s0,      # at most one leap day per year (inductive, via the recurrence)
                       dur_total(d) == dur_total(d0) + sign * NPD * (Lf(s) - Lf(s0)))
     return inv
